@@ -3,6 +3,7 @@ package prog
 import (
 	"encoding/json"
 	"fmt"
+	"regexp"
 	"sort"
 	"strings"
 )
@@ -498,6 +499,31 @@ func orderOpts(opts []opt) []string {
 	return out
 }
 
+var guestIdent = regexp.MustCompile(`\b(T\d+[es]?|mkT\d+|unT\d+|E\d+|mkE\d+|unE\d+|C\d+|mkC\d+|G|hands|Run|runG|topF\d+|genF\d+|resHolder|desc)\b`)
+
+// guestSource prints program g for inclusion in the file of program host: the
+// declarations of g's own file (everything after its imports) with every
+// package-level identifier renamed, so that the file holds two directives.
+func guestSource(g *Program, host string) string {
+	g.Host = host
+	pr := &printer{p: g}
+	src := pr.source()
+	if pr.helper.Len() > 0 {
+		panic("a guest program cannot have helper packages")
+	}
+	i := strings.Index(src, "var _ = context.Background\n")
+	body := src[i+len("var _ = context.Background\n"):]
+	// the description is a raw string: keep it out of the renaming
+	j := strings.Index(body, "const desc = `")
+	k := j + len("const desc = `") + strings.Index(body[j+len("const desc = `"):], "`\n")
+	descLit := body[j : k+2]
+	rest := body[:j] + "\x00DESC\x00" + body[k+2:]
+	rest = guestIdent.ReplaceAllString(rest, "${1}Z")
+	descLit = strings.Replace(descLit, "const desc", "const descZ", 1)
+	rest = strings.Replace(rest, "\x00DESC\x00", descLit, 1)
+	return "\n// ---- second directive of this file (program " + g.Name + ") ----\n" + rest
+}
+
 // Source prints the program's own file (programs without helper packages).
 func (p *Program) Source() string {
 	return p.Files("scratch/" + p.Name)["p.go"]
@@ -510,6 +536,9 @@ func (p *Program) Files(base string) map[string]string {
 	p.Base = base
 	pr := &printer{p: p}
 	main := pr.source()
+	if p.Guest != nil {
+		main += guestSource(p.Guest, p.Name)
+	}
 	out := map[string]string{"p.go": main}
 	if pr.helper.Len() == 0 {
 		return out
